@@ -277,6 +277,9 @@ def tiling_slice():
     return mk(pre), mk(body)
 
 
+TILING_BOUND = 1024
+
+
 class ARange:
     """np.arange(start, stop, step) as a record that can be shifted by a scalar"""
     def __init__(self, start, stop, step):
@@ -298,7 +301,7 @@ def job_tiling(taps, npol, bits, start_obs):
         code_pre, code_body = tiling_slice()
         ki, ni, si = z3.Ints('k nsb s')
         k, nsb, sb = (Sym(z3.ToReal(v), True) for v in (ki, ni, si))
-        BOUND = 1024
+        BOUND = TILING_BOUND
         pre = [ki >= 1, ki <= BOUND, ni >= 1, ni <= BOUND, si >= 0]
         bps = 2 * npol * bits // 8
         nant, nc, P = 1, 2, 8
@@ -333,7 +336,7 @@ def job_tiling(taps, npol, bits, start_obs):
         leaves = core.explore(run, pre, cap=40, timeout_ms=60000)
         conds = []
         for li, leaf in enumerate(leaves):
-            conds.append(z3.And(leaf.cond(), *leaf.side))
+            conds.append(leaf.cond())
             if leaf.kind == 'exc':
                 raise core.HarnessError(f"tiling slice raised {leaf.value!r}")
             o = leaf.value
@@ -358,7 +361,9 @@ def job_tiling(taps, npol, bits, start_obs):
                                 dict(fn='record', P=4, taps=taps, Wb=min(kv, 6), nsb=min(nv, 7), npol=npol, nant=1, bits=bits, start_chan=0, num_chans=2, nblocks=2, bpf=2, digitize=True), name=f"{tag}:leaf{li}:in-block/size/samples"))
         # contiguity: consecutive sub-blocks s, s+1 are adjacent -- two instances of the body with indices s and s+1 give
         # offsets off(s) = s*L: shown by the offset being linear in s with slope = the full range (second run, same pre)
-        r, _ = core.check(pre + [z3.Not(z3.Or(*conds))], timeout_ms=120000)
+        # definitional constraints of the quotient integers (total functions) are shared by all paths
+        defs = [c for leaf in leaves for c in leaf.side]
+        r, _ = core.check(pre + defs + [z3.Not(z3.Or(*conds))], timeout_ms=120000)
         recs.append(q(f"{tag}:split-complete", r, leaves=len(leaves)))
     finally:
         core.FRAC_INTS[0] = False
@@ -374,7 +379,7 @@ def job_tiling_adjacent(taps, npol, bits):
         code_pre, code_body = tiling_slice()
         ki, ni, si = z3.Ints('k nsb s')
         k, nsb = (Sym(z3.ToReal(v), True) for v in (ki, ni))
-        pre = [ki >= 1, ki <= 1024, ni >= 1, ni <= 1024, si >= 0]
+        pre = [ki >= 1, ki <= TILING_BOUND, ni >= 1, ni <= TILING_BOUND, si >= 0]
         bps = 2 * npol * bits // 8
         obsnchan, P = 2, 8
 
@@ -400,7 +405,7 @@ def job_tiling_adjacent(taps, npol, bits):
         leaves = core.explore(run, pre, cap=60, timeout_ms=60000)
         conds = []
         for li, leaf in enumerate(leaves):
-            conds.append(z3.And(leaf.cond(), *leaf.side))
+            conds.append(leaf.cond())
             a, b = leaf.value
             r, m = core.check(pre + leaf.pc + leaf.side + [lift(b.start) != lift(a.stop)], timeout_ms=120000)
             recs.append(q(f"{tag}:leaf{li}", r))
@@ -408,7 +413,8 @@ def job_tiling_adjacent(taps, npol, bits):
                 kv, nv, sv = (int(str(m.eval(v, model_completion=True))) for v in (ki, ni, si))
                 recs.append(cex('C02:tiling', f'sub-blocks {sv} and {sv + 1} are not adjacent (k={kv}, num_subblocks={nv})',
                                 dict(fn='record', P=4, taps=taps, Wb=min(kv, 6), nsb=min(nv, 7), npol=npol, nant=1, bits=bits, start_chan=0, num_chans=2, nblocks=2, bpf=2, digitize=True), name=f"{tag}:leaf{li}"))
-        r, _ = core.check(pre + [z3.Not(z3.Or(*conds))], timeout_ms=120000)
+        defs = [c for leaf in leaves for c in leaf.side]
+        r, _ = core.check(pre + defs + [z3.Not(z3.Or(*conds))], timeout_ms=120000)
         recs.append(q(f"{tag}:split-complete", r, leaves=len(leaves)))
     finally:
         core.FRAC_INTS[0] = False
@@ -549,12 +555,14 @@ def main():
         jobs.append(('job_record', (P, taps, Wb, nsb, 1, 1, 4, 1, 1, 2, 1, False)))
     for (P, taps, Wb, npol, bits) in [(4, 2, 3, 2, 8), (4, 2, 4, 1, 4)] + ([(4, 3, 5, 2, 8), (8, 2, 3, 2, 4)] if ck.thorough else []):
         jobs.append(('job_partition', (P, taps, Wb, npol, bits)))
+    global TILING_BOUND
+    TILING_BOUND = 256 if not ck.thorough else 1024
     for taps in ((2, 8) if not ck.thorough else (1, 2, 3, 4, 8, 16)):
         for (npol, bits) in ((2, 8), (1, 4)) if not ck.thorough else ((2, 8), (1, 8), (2, 4), (1, 4)):
             for start_obs in (False, True):
                 jobs.append(('job_tiling', (taps, npol, bits, start_obs)))
             jobs.append(('job_tiling_adjacent', (taps, npol, bits)))
-    ck.bounds = dict(tiling='windows per block k and requested num_subblocks symbolic integers <= 1024 (AST slice of the size arithmetic, NIA through fresh integers)', main=main_space, variations='pols 1-2, antennas 1-2, 8/4 bit, start_chan/num_chans, blocks 1-3, blocks_per_file 1-3, digitise on/off',
+    ck.bounds = dict(tiling=f'windows per block k and requested num_subblocks symbolic integers <= {TILING_BOUND} (AST slice of the size arithmetic, NIA through fresh integers)', main=main_space, variations='pols 1-2, antennas 1-2, 8/4 bit, start_chan/num_chans, blocks 1-3, blocks_per_file 1-3, digitise on/off',
                      num_subblocks='1..windows_per_block+1 (incl. non-divisors)')
     ck.run_jobs('props.C02', jobs, timeout_s=1500)
     ck.finish()
